@@ -52,8 +52,11 @@ def run(chk, fb, tier):
     for d in fns:
         b = fb.mir[d]
         chk.touch(d)
-        it = Interp(fb, inline=lambda fn: False)
-        it.impure = lambda fn: fb.mir.get(fn) is not None and any("getrandom" in t.get("fn", "") for _, t in fb.calls_in(fb.mir[fn]))
+        impure = lambda fn: fb.mir.get(fn) is not None and any("getrandom" in t.get("fn", "") for _, t in fb.calls_in(fb.mir[fn]))
+        # private, loop-free helpers of the module that merely package the steps are looked into; the hasher (loops) and the
+        # random source stay opaque
+        it = Interp(fb, inline=lambda fn: fn.startswith("helper::crypt::") and fb.mir.get(fn, {}).get("vis") != "pub" and not impure(fn) and not fn.endswith(("::hash", "::hmac")))
+        it.impure = impure
         try:
             paths = list(it.run(d, [("arg", i + 1) for i in range(b["argc"])]))
         except NotKernel as e:
